@@ -529,3 +529,56 @@ def a1_receive_allocations(ctx):
             ok = c is not None or in_memory(o)
             r.add(fam_name(b), "%s size is a constant or the length of data in memory" % last, ok, where(b, bi), ("constant %s" % c if c is not None else origin_str(o)[:80]) if ok else "sized by %s — a value the peer controls (announced length / cursor position): a 20-byte header can make the server request terabytes, and a failed allocation aborts the process" % origin_str(o)[:100])
     return r
+
+
+# ---------------------------------------------------------------------------------------------
+# T2: offsets, lengths, ids and counters of the storage layer are never narrowed
+
+_INT_BITS = {"u8": 8, "i8": 8, "u16": 16, "i16": 16, "u32": 32, "i32": 32, "u64": 64, "i64": 64, "usize": 64, "isize": 64, "u128": 128, "i128": 128}
+
+
+def t2_no_narrowing(ctx):
+    r = RuleResult(
+        "T2",
+        "the storage layer never narrows an integer: in storage::* no `as` cast written in the source converts an integer to a narrower integer type (u64→u32, usize→u32, i64→i32 …), and the counters of LogStatistics and the location fields of KeyDirEntry / LogIndex / HintFileEntry are 64 bits wide like the lengths and offsets they hold — a narrower counter or a truncating cast is invisible until one file carries more than 4 GiB of (dead) data, then the accounting wraps or panics and positions alias",
+        floor=6,
+    )
+    prog = ctx.prog
+    n = 0
+    for b in shipped_bodies(prog):
+        if "storage::" not in b.root:
+            continue
+        locs = b.rec.get("locals") or []
+        for bi in sorted(b.live_blocks()):
+            for st in b.blocks[bi]["stmts"]:
+                if st["k"] != "assign" or st["rv"]["k"] != "cast" or st["rv"].get("ck") != "IntToInt":
+                    continue
+                if "macro" in (st.get("exp") or "") or "desugar" in (st.get("exp") or ""):
+                    continue
+                to = st["rv"].get("ty")
+                op = st["rv"]["op"]
+                frm = op.get("ty") if op.get("k") == "const" else None
+                if frm is None and op.get("k") in ("copy", "move") and not op["pl"]["p"] and op["pl"]["l"] < len(locs):
+                    frm = locs[op["pl"]["l"]]["ty"]
+                if to not in _INT_BITS:
+                    continue
+                if frm not in _INT_BITS:
+                    r.unrec(fam_name(b), "source type of an integer cast to %s" % to, short_span(st.get("span")), "cannot tell the width of %s" % frm)
+                    continue
+                narrow = _INT_BITS[to] < _INT_BITS[frm]
+                r.add(fam_name(b), "cast %s → %s keeps every value" % (frm, to), not narrow, short_span(st.get("span")), "" if not narrow else "a truncating cast: values above %d bits are silently cut" % _INT_BITS[to])
+    WIDE = {
+        "storage::bitcask::log::LogStatistics": ("live_keys", "dead_keys", "dead_bytes"),
+        "storage::bitcask::KeyDirEntry": ("fileid", "len", "pos"),
+        "storage::bitcask::log::LogIndex": ("len", "pos"),
+        "storage::bitcask::HintFileEntry": ("len", "pos"),
+    }
+    for ty, names in WIDE.items():
+        adt = prog.adts.get(ty)
+        if adt is None:
+            r.unrec(ty.split("::")[-1], "definition", "?", "type not found")
+            continue
+        for fname, fty in adt["variants"][0]["fields"]:
+            if fty in _INT_BITS and (fname in names or fname.endswith(("_bytes", "_keys", "len", "pos", "fileid"))):
+                r.add(ty.split("::")[-1], "field `%s` is 64 bits wide" % fname, _INT_BITS[fty] >= 64, "src/storage", "%s" % fty if _INT_BITS[fty] >= 64 else "%s: narrower than the u64 lengths and offsets it accumulates or holds" % fty)
+    return r
